@@ -498,6 +498,9 @@ func c07Sort(c *Ctx, p *Prog, m *Model) {
 					other = append(other, "invoke "+n)
 				}
 			} else if cal := calleeOf(cs); cal != nil {
+				if cn := origin(cal).String(); (cn == "cmp.Compare" || cn == "strings.Compare") && name == "comparator" {
+					continue // the standard three-way comparison of the two keys (operands checked below)
+				}
 				other = append(other, shortName(cal))
 			}
 		}
@@ -513,6 +516,20 @@ func c07Sort(c *Ctx, p *Prog, m *Model) {
 						cond, neg := normCond(g.If.Cond)
 						if bo, ok := cond.(*ssa.BinOp); ok && bo.Op == token.LSS && !neg && g.Succ == 0 {
 							if isKeyOf(bo.X, cmpFn.Params[0]) && isKeyOf(bo.Y, cmpFn.Params[1]) {
+								asc = true
+							}
+						}
+					}
+				}
+			}
+		}
+		// or: the result IS the standard three-way comparison of (a.Key(), b.Key()) in this order
+		for _, b := range cmpFn.Blocks {
+			if ret, ok := b.Instrs[len(b.Instrs)-1].(*ssa.Return); ok && len(ret.Results) == 1 {
+				for _, sv := range sources(ret.Results[0]) {
+					if call, ok := sv.(*ssa.Call); ok {
+						if cal := calleeOf(call); cal != nil && (origin(cal).String() == "cmp.Compare" || origin(cal).String() == "strings.Compare") {
+							if isKeyOf(call.Common().Args[0], cmpFn.Params[0]) && isKeyOf(call.Common().Args[1], cmpFn.Params[1]) {
 								asc = true
 							}
 						}
